@@ -604,7 +604,7 @@ func runWalgc(c *corr.Ctx) error {
 			return err
 		}
 	}
-	n := c.Scale(60, 1500)
+	n := c.Scale(150, 3000)
 	for i := 0; i < n; i++ {
 		if err := emitOps(genHistory(c)); err != nil {
 			return err
